@@ -42,7 +42,7 @@ pub fn records(addrs: &[u32]) -> Vec<Rec> {
         push("DF16".into(), df16(0, 3, 3, ac13_q(12000), &[0x30, 0, 0, 0, 0, 0, 0], a));
         for (n, me) in me_samples() {
             push(format!("DF17:{n}"), df17(5, a, &me, 0));
-            for cf in [0u8, 1, 2, 5, 6] {
+            for cf in 0..8u8 {
                 push(format!("DF18:cf={cf}:{n}"), df18(cf, a, &me, 0));
             }
         }
